@@ -286,8 +286,24 @@ def trajectory(cls, t0, n, fields=None, lim=100):
 
 # ------------------------------------------------------------------------------------------------------- lanelets
 
+def offset_polyline(center, heads, d):
+    """Mitred offset of a polyline (centre points + per-segment headings) by signed distance d (left positive)."""
+    out = []
+    for i, p in enumerate(center):
+        if i == 0:
+            a, m = heads[0], 1.0
+        elif i == len(center) - 1:
+            a, m = heads[-1], 1.0
+        else:
+            dd = heads[i] - heads[i - 1]
+            a = heads[i - 1] + dd / 2
+            m = 1.0 / math.cos(dd / 2)
+        out.append([p[0] - d * m * math.sin(a), p[1] + d * m * math.cos(a)])
+    return out
+
+
 def lanelet_polylines(n_min=2, n_max=8, seg_min=1.0, seg_max=20.0, w_min=0.8, w_max=3.0, start=None, heading=None,
-                      lim=200):
+                      lim=200, wmul=1.0):
     """Centre polyline from a start pose, mitred left/right offsets; simple polygon by construction (DESIGN 3.3)."""
     def build(t):
         p0, h0, w, segs = t
@@ -297,7 +313,7 @@ def lanelet_polylines(n_min=2, n_max=8, seg_min=1.0, seg_max=20.0, w_min=0.8, w_
         for i, (ln, turn) in enumerate(segs):
             if i > 0:
                 lmin = min(ln, segs[i - 1][0])
-                bound = 2 * math.atan(0.45 * min(lmin, 1.0) / w)
+                bound = 2 * math.atan(0.45 * min(lmin, 1.0) / (w * wmul))
                 h = h + turn * bound
             heads.append(h)
             pts.append([pts[-1][0] + ln * math.cos(h), pts[-1][1] + ln * math.sin(h)])
